@@ -108,6 +108,8 @@ class Check:
                 i = len(run["steps"])
                 self.finish(world, run)
             except Violation as v:
+                if isinstance(v.detail, dict) and v.detail.get("step_index") is not None:
+                    i = v.detail["step_index"]
                 st = run["steps"][i] if 0 <= i < len(run["steps"]) else {"op": "finish"}
                 res.update(
                     status="violation",
@@ -128,6 +130,7 @@ class Check:
             res["clock_reads"] = seams.CLOCK.reads
             res["stmts"] = seams.STMT.count
             self.extra_result(world, run, res)
+            log.append(["extra", self.extra_log(world, run, res)])
         finally:
             if world is not None:
                 try:
@@ -145,6 +148,9 @@ class Check:
 
     def extra_result(self, world, run, res):
         pass
+
+    def extra_log(self, world, run, res):
+        return None
 
     def log_outcome(self, world, step, out):
         e = out.get("exc")
@@ -242,6 +248,8 @@ def minimise(check, run, result, rundir_base, budget=400, wall=60.0):
             return None
         return res if same_failure(result, res) else None
 
+    if hasattr(check, "minimise_prepare"):
+        run = check.minimise_prepare(run)
     steps = list(run["steps"])
     best = result
     # cut everything after the failing step
@@ -356,8 +364,10 @@ def load_known():
         return {"findings": [], "fixed": []}
 
 
-def match_known(known, prop, backend, tag, op):
+def match_known(known, prop, backend, tag, op, message=""):
     for k in known.get("findings", []):
+        if k.get("message_contains") and k["message_contains"] not in (message or ""):
+            continue
         if k.get("property") != prop:
             continue
         if k.get("tag") != tag:
@@ -542,7 +552,7 @@ def run_check(check_name, tier, seed=None, nruns=None):
             if rc != 1:
                 harness_errors.append("run %d: violation does not reproduce in a fresh process:\n%s" % (m["idx"], outp[-2000:]))
                 continue
-        k = match_known(known, check.prop, mrun.get("backend"), mres["tag"], mres.get("step_op"))
+        k = match_known(known, check.prop, mrun.get("backend"), mres["tag"], mres.get("step_op"), mres.get("message"))
         desc = "%s backend=%s oracle=%s op=%s: %s" % (check.prop, mrun.get("backend"), mres["tag"], mres.get("step_op"), short(mres["message"], 400))
         if k:
             print("KNOWN-FINDING: property=%s %s [%s] replay=%s" % (check.prop, k.get("what", ""), desc, path), flush=True)
